@@ -43,6 +43,7 @@ inductive Obj where
   | uriparams (l : URIParamsLst)
   | urihdrs (l : URIHdrsLst)
   | uri (u : PsipURI)
+  | skipq
   | none
 
 structure Sess where
@@ -78,6 +79,7 @@ def newObj (toks : List String) : Obj :=
   | ["uriparams", c] => .uriparams { params := mkArr (natOf c) {} }
   | ["urihdrs", c] => .urihdrs { hdrs := mkArr (natOf c) {} }
   | ["uri"] => .uri {}
+  | ["skipq"] => .skipq
   | _ => .none
 
 def hbPanicked : Option PHdrVals → Bool
@@ -143,6 +145,9 @@ def doParse (o : Obj) (b : Buf) (offs flags : Nat) : String × Obj × Nat × Boo
   | .uri u =>
     match parseURI b u with
     | (e, p, u', pn) => (s!"{e.name},{p}", .uri u', p, pn)
+  | .skipq =>
+    match skipQuoted b offs with
+    | (n, e) => (res n e, .skipq, n, false)
   | .none => ("?", .none, 0, false)
 
 def doReset (o : Obj) : Obj :=
@@ -163,6 +168,7 @@ def doReset (o : Obj) : Obj :=
   | .uriparams l => .uriparams l.reset
   | .urihdrs l => .urihdrs l.reset
   | .uri _ => .uri {}
+  | .skipq => .skipq
   | .none => .none
 
 /-- `I`: msg.Init(B, same arrays…) / PHdrVals.Init(same contacts array) -/
@@ -174,8 +180,8 @@ def doInit (o : Obj) (b : Buf) : Obj :=
     let hd : Option (Array Hdr) := h.map (fun _ => m1.hl.hdrs)
     let ct : Option (Array PFromBody) := c.map (fun _ => m1.pv.contacts.vals)
     .msg (m.init b.size hd ct) h c
-  | .hdrline h hb => .hdrline h (hb.map (fun hv => hv.init hv.contacts.vals))
-  | .headers hl hb => .headers hl (hb.map (fun hv => hv.init hv.contacts.vals))
+  | .hdrline _ hb => .hdrline {} (hb.map (fun hv => hv.init hv.reset.contacts.vals))
+  | .headers hl hb => .headers hl.reset (hb.map (fun hv => hv.init hv.reset.contacts.vals))
   | o => doReset o
 
 def doObs (o : Obj) : String :=
@@ -196,6 +202,7 @@ def doObs (o : Obj) : String :=
   | .uriparams l => Obs.uriparams l
   | .urihdrs l => Obs.urihdrs l
   | .uri u => Obs.uri u
+  | .skipq => "-"
   | .none => "?"
 
 def fieldStr (b : Buf) (f : PField × Bool) : String :=
@@ -220,6 +227,7 @@ def step (s : Sess) (op : List String) : Sess :=
   | ["G"] =>
     match s.obj with
     | .msg m _ _ =>
+      if !(m.parsed || m.state == .noCLen) then { s with out := s.out.push "nosig" } else
       let (sg, e, p) := getMsgSig m s.buf
       if p then { s with out := s.out.push "PANIC", dead := true }
       else { s with out := s.out.push (Obs.msgsig sg ++ s!" err={e.name}") }
